@@ -163,3 +163,30 @@ package fstree
 //@ func shiftPayloadRangeStream
 //@   property C11
 //@   mode bv
+
+// ---- C10 (combined files): when readHeader finds the requested entry in a combined file,
+// what it hands out - the buffered prefix plus the rest of the stream - is exactly that
+// entry: the stream is bounded and prefix length + stream limit == entry length.
+
+//@ ghost field entryMatched(x int) bool
+//@ callrule c10_entry_match in (*FSTree).readHeader
+//@   property C10
+//@   callee bytes.Equal
+//@   pureeffect
+//@   assigns entryMatched
+//@   ensures entryMatched(0) == result
+//@ callrule c10_read_header_collaborators in (*FSTree).readHeader
+//@   property C10
+//@   callee (*os.File).Seek, fstree.parseCombinedPrefix, errors.Is
+//@   pureeffect
+//@ callrule c10_read_full_count in (*FSTree).readHeader
+//@   property C10
+//@   callee io.ReadFull
+//@   pureeffect
+//@   ensures 0 <= res0 && res0 <= len(a1)
+//@ func (*FSTree).readHeader
+//@   property C10
+//@   valid !entryMatched(0)
+//@   requires [buffer_of_two_header_lengths] len(buf) >= 40960
+//@   loop 1 invariant 0 <= offset && offset <= n + 38 && 0 <= n && n <= len(buf) && !entryMatched(0)
+//@   ensures [stream_of_a_combined_entry_ends_with_the_entry] err == nil && entryMatched(0) ==> isType(res1, limitedFileReader) && wide(len(res0)) + wide(as(res1, limitedFileReader).limit) == wide(l)
